@@ -392,6 +392,8 @@ class ConfigParser(object):
       cp.read_file(fp)
     except (configparser.DuplicateOptionError, configparser.DuplicateSectionError) as e:
       raise ConfigParserDuplicateEntryException(e.message)
+    except configparser.Error as e:
+      raise ConfigParserException("Could not parse potential definition: {}".format(e.message))
 
     # Process overrides
     for override in overrides:
